@@ -1,7 +1,7 @@
 CONSTANTS
-  CtorOrder <- CtorSafe
-  SetOrder <- SetSafe
-  DtorOrder <- DtorPinned
+  CtorOrder <- CtorCode
+  SetOrder <- SetCode
+  DtorOrder <- DtorCode
   MaxSig = 3
 SPECIFICATION Spec
 INVARIANT NotLost
